@@ -33,11 +33,10 @@ theorem enqueue_chain {q : Cont} (wf : q.WF) (tl : tailOK .queue q) (nd : Node) 
     have : q.chain.length - 1 + 1 = q.chain.length := by omega
     simp [tl, lastId, hl, hp, this, hne]
 
-theorem enqueue_R {s : St} {a : ASt} (v : Val) (h : R .queue s a) (hi : s.itr = none) :
+theorem enqueue_R {s : St} {a : ASt} (v : Val) (h : R .queue s a) :
     R .queue (enqueue s v).1 (Spec.C12.Queue.step a (.enq v)).1 ∧ (enqueue s v).2 = (Spec.C12.Queue.step a (.enq v)).2 := by
   obtain ⟨alive, dt, cmp, xs, cur, out⟩ := a
   obtain ⟨obj, itr, log, fault⟩ := s
-  simp only at hi; subst hi
   cases obj with
   | none =>
     have h' := h
@@ -46,16 +45,23 @@ theorem enqueue_R {s : St} {a : ASt} (v : Val) (h : R .queue s a) (hi : s.itr = 
   | some q =>
     have h' := h
     simp only [R] at h
-    obtain ⟨rfl, rfl, rfl, rfl, rfl, rfl, wf, tl, rfl⟩ := h
+    obtain ⟨rfl, rfl, rfl, rfl, rfl, rfl, wf, tl, hi⟩ := h
     by_cases hv : v = 0
     · simp [enqueue, Spec.C12.Queue.step, hv]; exact h'
     · simp only [enqueue, hv, if_false, enqueue_chain wf tl, Spec.C12.Queue.step]
       simp only [R]
       simp [hv, vals]
-      refine ⟨?_, ?_⟩
+      refine ⟨?_, ?_, ?_⟩
       · have := (wf.insert (Nat.le_refl _) hv).withTail (some q.fresh)
         simpa [insertAt_length] using this
       · simp [tailOK, lastId_concat]
+      · -- a live iterator keeps its place: the link it holds is not touched
+        cases itr with
+        | none => simpa using hi
+        | some it =>
+          obtain ⟨ac, hc, hpos, hrem, hdiff, hk⟩ := hi
+          refine ⟨ac, hc, linkPos_append _ hpos, hrem, hdiff, hk.1, ?_⟩
+          intro hr; have := hk.2 hr; simp; omega
 
 theorem dequeue_empty {s : St} (h : ¬ cLen s.obj > 0) : dequeue s = (s, .ptr 0) := by
   simp [dequeue, h]
@@ -206,7 +212,7 @@ theorem okOp_itr {s : St} {o : Op} (h : okOp s o = true) (hm : o.mutates = true)
 theorem step_R {s : St} {a : ASt} (o : Op) (h : R .queue s a) (hok : okOp s o = true) :
     R .queue (step s o).1 (Spec.C12.Queue.step a o).1 ∧ (step s o).2 = (Spec.C12.Queue.step a o).2 := by
   cases o with
-  | enq v => exact enqueue_R v h (okOp_itr hok rfl)
+  | enq v => exact enqueue_R v h
   | deq => exact dequeue_R h (okOp_itr hok rfl)
   | peek => exact peek_R h
   | rm => have := remove_R h (okOp_itr hok rfl); exact ⟨this.1, this.2.1⟩
